@@ -272,6 +272,7 @@ type canonKey struct {
 	base  ssa.Value
 	field *types.Var
 	idx   int64
+	idxv  ssa.Value // non-constant index (same SSA value = same element within one iteration)
 }
 
 // canon unifies repeated loads of the same field (base.f) / same constant element (x[k]) of an
@@ -300,6 +301,18 @@ func (fb *FB) canon(v ssa.Value) ssa.Value {
 				return v
 			}
 			k := canonKey{base: base, idx: ci}
+			if c, ok := fb.canonMap[k]; ok {
+				return c
+			}
+			fb.canonMap[k] = v
+		} else {
+			// x[i] for the same index value i of a slice this function never stores into
+			base := fb.canon(a.X)
+			if fb.elementsStored(base) {
+				return v
+			}
+			k := canonKey{base: base, idx: -2, idxv: fb.canon(a.Index)}
+			// (facts about one load are used only where their branch edge dominates, i.e. for the same value of i)
 			if c, ok := fb.canonMap[k]; ok {
 				return c
 			}
